@@ -135,9 +135,17 @@ func (e *evaluator) eval1(x ast.Expr) *Term {
 		if in.Op == "&" && len(in.A) == 1 {
 			return in.A[0]
 		}
+		if namedStruct(e.typeOf(x)) != "" && (in.Op == "" || in.Op == "with") {
+			return in // a pointer to a state struct stands for the struct it points to
+		}
 		return mk("deref", in)
 	case *ast.IndexExpr:
-		t := mk("idx", e.eval(x.X), e.eval(x.Index))
+		xt, it := e.eval(x.X), e.eval(x.Index)
+		if it.Op == "key" && len(it.A) == 1 && it.A[0].Eq(xt) {
+			// x[i] with i ranging over x: the element under iteration (in range by construction)
+			return mk("elem", xt).withType(e.typeOf(x))
+		}
+		t := mk("idx", xt, it)
 		e.emitIndex(x, x.X, t)
 		return t
 	case *ast.SliceExpr:
@@ -535,6 +543,22 @@ func (e *evaluator) evalCall(call *ast.CallExpr) *Term {
 			if u, ok := ast.Unparen(a).(*ast.UnaryExpr); ok && u.Op == token.AND {
 				if id, ok := u.X.(*ast.Ident); ok {
 					if v, ok := info.Uses[id].(*types.Var); ok && !isCtxType(v.Type()) {
+						// a module function that updates the struct behind its pointer parameter: apply its summary
+						if ci.fn != nil {
+							if os := e.p.outSummary(ci.fn, i); os != nil {
+								m := map[string]*Term{}
+								for j, aj := range ci.args {
+									m[fmt.Sprintf("P%d", j)] = stripAddr(aj)
+								}
+								nv := os.Subst(m)
+								nv.Typ = v.Type()
+								e.st.vars[v] = nv
+								continue
+							}
+							if namedStruct(v.Type()) != "" && e.p.neverWritesParam(ci.fn, i) {
+								continue // read-only use of the pointer
+							}
+						}
 						e.st.vars[v] = mk("out", result, atom(strconv.Itoa(i))).withType(v.Type())
 					}
 				}
@@ -566,6 +590,16 @@ func (e *evaluator) callTerm(ci *callInfo) *Term {
 		return e.inlineCall(ci.fn, ci.recv, ci.args)
 	}
 	if ci.fn != nil && e.st != nil {
+		if def := e.p.predDef(ci.fn); def != nil {
+			m := map[string]*Term{}
+			for i, a := range ci.args {
+				m[fmt.Sprintf("P%d", i)] = a
+			}
+			if ci.recv != nil {
+				m["Precv"] = ci.recv
+			}
+			return boolSimplify(def.Subst(m))
+		}
 		if rt := e.p.retSummary(ci.fn); rt != nil {
 			m := map[string]*Term{}
 			for i, a := range ci.args {
@@ -586,6 +620,27 @@ func (e *evaluator) callTerm(ci *callInfo) *Term {
 			continue
 		}
 		t.A = append(t.A, a)
+	}
+	if ci.fn != nil && e.st != nil {
+		if eq := e.p.resEquations(ci.fn); eq != nil {
+			// a wrapper that hands through results of other calls: those components are the inner terms
+			m := map[string]*Term{}
+			for i, a := range ci.args {
+				m[fmt.Sprintf("P%d", i)] = a
+			}
+			if ci.recv != nil {
+				m["Precv"] = ci.recv
+			}
+			tup := &Term{Op: "tuple"}
+			for k := range eq {
+				if eq[k] != nil {
+					tup.A = append(tup.A, eq[k].Subst(m))
+				} else {
+					tup.A = append(tup.A, mk("res", atom(strconv.Itoa(k)), t).withType(ci.fn.Res[k].Type()))
+				}
+			}
+			return tup
+		}
 	}
 	return t
 }
@@ -631,4 +686,35 @@ func (e *evaluator) emitIndex(node ast.Expr, operand ast.Expr, t *Term) {
 		return
 	}
 	e.st.emit(&Event{Kind: EvIndex, Node: node, Pos: node.Pos(), Val: t, Local: append([]Fact(nil), e.sc...)})
+}
+
+// stripAddr: (& x) -> x (a pointer argument stands for its pointee in summaries).
+func stripAddr(t *Term) *Term {
+	if t != nil && t.Op == "&" && len(t.A) == 1 {
+		return t.A[0]
+	}
+	return t
+}
+
+// neverWritesParam: no committed path of g writes the struct behind pointer parameter i.
+func (p *Prog) neverWritesParam(g *Func, i int) bool {
+	if p.pathsBusy[g] || !g.isHandWritten() || g.Body == nil {
+		return false
+	}
+	for _, pa := range p.PathsOf(g) {
+		if _, w := pa.Out[i]; w {
+			return false
+		}
+		// the pointer may also be handed on to a decoder
+		for _, ev := range pa.Events {
+			if ev.Kind == EvCall && writesThroughPointer(ev.CI) {
+				for _, a := range ev.CI.args {
+					if a.IsAt(fmt.Sprintf("P%d", i)) {
+						return false
+					}
+				}
+			}
+		}
+	}
+	return true
 }
